@@ -32,6 +32,10 @@ from ref import grid as rg
 from ref import interp as ri
 from ref.grid import RefGrid
 
+# imported here (not lazily) so that the freshly forked shard processes inherit the loaded modules (~1 s per process)
+import deepali.data  # noqa: F401,E402
+import deepali.core.enum  # noqa: F401,E402
+
 PROPERTY = "C04"
 RULE = (
     "every chain of spatial image operations (alphabet of ~115 argument forms; depth 2 quick, depth 3 thorough with a "
